@@ -1502,6 +1502,25 @@ func (p *Posix) CompleteMultipartUpload(ctx context.Context, input *s3.CompleteM
 		return nil, s3err.GetChecksumTypeMismatchOnMpErr(checksumType)
 	}
 
+	// an object checksum is compared with what the parts add up to for the
+	// algorithm the upload was created with; a value of another algorithm
+	// (or for an upload created without one) cannot be verified and is
+	// not to be acknowledged unverified
+	for _, given := range []struct {
+		algo types.ChecksumAlgorithm
+		val  *string
+	}{
+		{types.ChecksumAlgorithmCrc32, input.ChecksumCRC32},
+		{types.ChecksumAlgorithmCrc32c, input.ChecksumCRC32C},
+		{types.ChecksumAlgorithmSha1, input.ChecksumSHA1},
+		{types.ChecksumAlgorithmSha256, input.ChecksumSHA256},
+		{types.ChecksumAlgorithmCrc64nvme, input.ChecksumCRC64NVME},
+	} {
+		if given.val != nil && *given.val != "" && given.algo != checksumAlgorithm {
+			return nil, s3err.GetChecksumBadDigestErr(given.algo)
+		}
+	}
+
 	// check all parts ok
 	last := len(parts) - 1
 	var totalsize int64
